@@ -32,8 +32,13 @@ def main():
             print('demo on unchanged tree: exit %d' % d.returncode)
         r = subprocess.run(['git', '-C', wt, 'apply', os.path.abspath(patch)], capture_output=True, text=True)
         if r.returncode != 0:
-            print('PATCH DOES NOT APPLY: ' + r.stderr.strip())
-            return 2
+            # the patch was written against an older HEAD: merge it (context drift from later fix commits)
+            r3 = subprocess.run(['git', '-C', wt, 'apply', '--3way', os.path.abspath(patch)], capture_output=True, text=True)
+            if r3.returncode != 0:
+                print('PATCH DOES NOT APPLY: ' + r.stderr.strip())
+                return 2
+            subprocess.run(['git', '-C', wt, 'reset', '-q'])
+            print('patch applied with --3way (context drift)')
         if os.path.exists(demo):
             d = subprocess.run(['/venv/bin/python', os.path.abspath(demo)], env=dict(os.environ, PYTHONPATH=wt + '/src'),
                                capture_output=True, text=True, cwd=seed)
